@@ -1010,3 +1010,13 @@ Proof.
   - rewrite Hg in Hok. discriminate.
   - rewrite Hg in Hok. discriminate.
 Qed.
+
+(** * a value whose text is empty is still defined *)
+Lemma empty_is_defined :
+  (forall f p, payload_at f p = Some empty_text -> defines f p = true)
+  /\ (forall suppress top dt ns pay d path,
+        merge_value suppress top dt ns (BValue pay d) (Leaf empty_text) path = Ok (BValue pay d, []))
+  /\ (forall dflt ns path, mk_value dflt ns path (Leaf empty_text) = Ok (BValue empty_text (dl_new dflt))).
+Proof.
+  split; [intros f p H; eapply payload_defines; eauto|]. split; reflexivity.
+Qed.
